@@ -53,7 +53,7 @@ def tasks(tier, seed):
                 for first in range(8):
                     ts.append({"part": "seq", "api": api, "first": first, "depth": depth(tier), "fire": fire, "skip": skip,
                                "name": "seq/%s/f%d/s%d/%d" % (api, fire, skip, first)})
-        for prelude in ("connected", "reused-midmessage", "reused-midframe", "after-send_close", "created"):
+        for prelude in ("connected", "reused-midmessage", "reused-midframe", "after-send_close", "created", "reused-eof-midmessage", "reused-eof-midframe"):
             for fire, skip in (((0, 0), (1, 0), (0, 1), (1, 1)) if prelude in ("connected", "created") else ((0, 0),)):
                 for first in range(8):
                     ts.append({"part": "seq", "api": api, "first": first, "depth": depth(tier) - 1, "fire": fire, "skip": skip, "prelude": prelude,
